@@ -136,6 +136,21 @@ theorem tf_conventions_agree (o T : G → K) :
     applyTF P true o [shiftBy c T] = applyTF P false o [T] := by
   rw [gen_applyTF, gen_applyTF]; exact applyTF_shifted_eq_unshifted E c re absf argf o T
 
+/-- …for whole lists: a list of centred transfer functions in the shifted convention does what the
+list of the same functions with origin at `[0,0]` does in the unshifted one -/
+theorem tf_conventions_agree_list (o : G → K) (tfs : List (G → K)) :
+    applyTF P true o (tfs.map (shiftBy c)) = applyTF P false o tfs := by
+  rw [gen_applyTF, gen_applyTF]; exact applyTF_shifted_eq_unshifted_list E c re absf argf o tfs
+
+/-- callables: a transfer function given as a function `φ` of the frequency coordinate gives the same image in
+both conventions, PROVIDED the grid handed to it has its origin where the convention puts it (`ν` with
+origin at `[0,0]` when unshifted, `fftshift ν` when shifted — the generated fact
+`tfGridOriginFollowsConvention`) -/
+theorem tf_callables_agree {F : Type} (o : G → K) (ν : G → F) (φs : List (F → K)) :
+    applyTF P true o (φs.map fun φ => fun k => φ (shiftBy c ν k))
+      = applyTF P false o (φs.map fun φ => fun k => φ (ν k)) := by
+  rw [← tf_conventions_agree_list, List.map_map]; rfl
+
 /-- the shifted convention fed with `transform_psf h` is `conv o h` -/
 theorem tf_of_transformPsf_is_conv (hre : ∀ r, re (ι r) = ι r) (o h : G → R) :
     applyTF P true (emb ι o) [transformPsf P (emb ι h)] = conv P (emb ι o) (emb ι h) := by
@@ -160,6 +175,38 @@ theorem conv_grid_eq_model (m n : ℕ) [NeZero m] [NeZero n] {K R : Type} [Field
         (emb ι (lift m n o)) (emb ι (lift m n h)) ((p : ZMod m), (q : ZMod n))
       = ι (Model.C15.conv2 m n o h p q) := by
   rw [conv_eq_centred_cconv _ _ re absf argf ι hre, conv2_eq]; rfl
+
+/-- total of the image on the grid, in the model's own sums: `Σ conv2 = Σ o · Σ h` -/
+theorem conv_grid_sum_model (m n : ℕ) [NeZero m] [NeZero n] {R : Type} [Field R] (o h : ℕ → ℕ → R) :
+    Model.C15.total m n (Model.C15.conv2 m n o h) = Model.C15.total m n o * Model.C15.total m n h := by
+  rw [total_eq, total_eq, total_eq, ← cconvC_sum (centre m n)]
+  refine Finset.sum_congr rfl fun g _ => ?_
+  obtain ⟨a, b⟩ := g
+  simp only [lift]
+  rw [conv2_eq, ZMod.natCast_zmod_val, ZMod.natCast_zmod_val]
+
+/-- unshifted convention on the grid, in the model's own sums: the image is the model's origin-at-[0,0]
+circular convolution of the object with the inverse transform of the transfer function -/
+theorem tf_grid_unshifted_eq_model (m n : ℕ) [NeZero m] [NeZero n] {K : Type} [Field K] (ζm ζn : K)
+    (hm : IsPrimitiveRoot ζm m) (hn : IsPrimitiveRoot ζn n) (cm : (m : K) ≠ 0) (cn : (n : K) ≠ 0)
+    (re absf argf : K → K) (o g : ℕ → ℕ → K) (p q : ℕ) :
+    applyTF (mathOps (gridKernel m n ζm ζn hm hn cm cn) (centre m n) re absf argf) false
+        (lift m n o) [fft (gridKernel m n ζm ζn hm hn cm cn) (lift m n g)] ((p : ZMod m), (q : ZMod n))
+      = re (Model.C15.cconv2 m n o g p q) := by
+  rw [tf_unshifted_is_cconv, ifft_fft, cconv2_eq]; rfl
+
+/-- the frequency grids of the model: zero frequency at `n // 2` when shifted, at index 0 when not, and the
+shifted grid is the `fftshift` of the unshifted one -/
+theorem freq_grid_origin (n i : ℕ) (hn : 0 < n) :
+    Model.C15.ftUnitNum n true (n / 2) = 0 ∧ Model.C15.ftUnitNum n false 0 = 0 ∧
+    Model.C15.ftUnitNum n true i = Model.C15.ftUnitNum n false (Model.C15.fftshiftSrc n i) := by
+  refine ⟨?_, ?_, rfl⟩
+  · have h0 : (n / 2 + (n - n / 2)) % n = 0 := by
+      rw [Nat.add_sub_cancel' (Nat.div_le_self n 2), Nat.mod_self]
+    have h1 : (0 : ℕ) < (n + 1) / 2 := by omega
+    simp only [Model.C15.ftUnitNum, Model.C15.fftfreqNum, Model.C15.fftshiftSrc, if_true, h0, h1, Nat.cast_zero]
+  · have h1 : (0 : ℕ) < (n + 1) / 2 := by omega
+    simp [Model.C15.ftUnitNum, Model.C15.fftfreqNum, h1]
 
 /-- `fftshift` / `ifftshift` of the model (index maps `(i ± n//2) mod n`) are the rotations by `± centre` -/
 theorem rolls_grid_eq_model (m n : ℕ) [NeZero m] [NeZero n] {A : Type} (f : ℕ → ℕ → A) :
@@ -241,10 +288,10 @@ theorem analytic_tf_dc (exp sinc cos : K → K) (pi a b : K) (u v : Bool)
     (hexp : exp 0 = 1) (hsinc : sinc 0 = 1) (hcos : cos 0 = 1) :
     jitterFt exp pi 0 a = 1 ∧ smearFt sinc 0 0 a b u v = 1 ∧ pixelFt sinc 0 0 a b = 1 ∧ olpfFt cos 0 0 a b = 1 := by
   refine ⟨?_, ?_, ?_, ?_⟩
-  · simp only [jitterFt, Num.ofInt, mul_zero, hexp]
+  · simp [jitterFt, Num.ofInt, hexp]
   · cases u <;> cases v <;> simp [smearFt, Num.ofInt, hsinc]
-  · simp only [pixelFt, zero_mul, hsinc, mul_one]
-  · simp only [olpfFt, mul_zero, hcos, mul_one]
+  · simp [pixelFt, hsinc]
+  · simp [olpfFt, hcos]
 
 /-- they are even in the frequency (real, symmetric blur kernels) -/
 theorem analytic_tf_even (exp sinc cos : K → K) (pi fr fx fy a b : K) (u v : Bool)
